@@ -273,7 +273,7 @@ func (r *c09Rig) run(plan c09Plan, tag string) c09Outcome {
 		l := entries[entry]
 		localIP := r.in.ip(10 + ci%8)
 		var send func([]byte) error
-		var recv func() (*RMsg, error)
+		var recv func(budget *patience) (*RMsg, error)
 		via := ""
 		if tcp {
 			d := net.Dialer{LocalAddr: &net.TCPAddr{IP: net.ParseIP(localIP)}, Timeout: 10 * time.Second}
@@ -285,9 +285,20 @@ func (r *c09Rig) run(plan c09Plan, tag string) c09Outcome {
 			defer c.Close()
 			rd := bufio.NewReaderSize(c, 1<<16)
 			send = func(b []byte) error { _, err := c.Write(b); return err }
-			recv = func() (*RMsg, error) {
-				c.SetReadDeadline(time.Now().Add(wait))
-				return sipReadStream(rd)
+			recv = func(budget *patience) (*RMsg, error) {
+				// (running time, not wall-clock time: a frozen sandbox must not look like a lost answer)
+				for {
+					c.SetReadDeadline(time.Now().Add(40 * time.Millisecond)) // (below the cap a single wake-up may count for)
+					if _, err := rd.Peek(1); err == nil {
+						c.SetReadDeadline(time.Now().Add(20 * time.Second))
+						return sipReadStream(rd)
+					} else if ne, ok := err.(net.Error); !ok || !ne.Timeout() {
+						return nil, err
+					}
+					if budget.spent() {
+						return nil, os.ErrDeadlineExceeded
+					}
+				}
 			}
 			via = fmt.Sprintf("SIP/2.0/TCP %s:5060", localIP)
 		} else {
@@ -301,17 +312,25 @@ func (r *c09Rig) run(plan c09Plan, tag string) c09Outcome {
 			dst := &net.UDPAddr{IP: net.ParseIP(l.Addr), Port: l.UDPPort}
 			buf := make([]byte, 70000)
 			send = func(b []byte) error { _, err := c.WriteToUDP(b, dst); return err }
-			recv = func() (*RMsg, error) {
-				c.SetReadDeadline(time.Now().Add(wait))
-				n, _, err := c.ReadFromUDP(buf)
-				if err != nil {
-					return nil, err
+			recv = func(budget *patience) (*RMsg, error) {
+				for {
+					c.SetReadDeadline(time.Now().Add(40 * time.Millisecond)) // (below the cap a single wake-up may count for)
+					n, _, err := c.ReadFromUDP(buf)
+					if err == nil {
+						return sipRead(append([]byte(nil), buf[:n]...))
+					}
+					if ne, ok := err.(net.Error); !ok || !ne.Timeout() {
+						return nil, err
+					}
+					if budget.spent() {
+						return nil, os.ErrDeadlineExceeded
+					}
 				}
-				return sipRead(append([]byte(nil), buf[:n]...))
 			}
 			via = fmt.Sprintf("SIP/2.0/UDP %s:%d", localIP, c.LocalAddr().(*net.UDPAddr).Port)
 		}
 		var silent *patience
+		unanswered := 0
 		for j := 0; j < plan.PerClient; j++ {
 			if atomic.LoadInt32(&r.stop) != 0 {
 				return
@@ -349,10 +368,14 @@ func (r *c09Rig) run(plan c09Plan, tag string) c09Outcome {
 				setFail("client %d: send failed: %v", ci, err)
 				return
 			}
+			budget := newPatience(wait)
+			if unanswered > 0 && wait > 5*time.Second {
+				budget = newPatience(5 * time.Second) // this client has already seen a request go unanswered: the plan is about to end
+			}
 			for {
-				m, err := recv()
+				m, err := recv(budget)
 				if err != nil {
-					break // no answer within 20 s (judged below: loss is admissible only around a removal)
+					break // no answer within 20 s of running time (judged below: loss is admissible only around a removal)
 				}
 				if cid, _ := m.First(hCallID); cid == id {
 					t.answer = true
@@ -386,8 +409,18 @@ func (r *c09Rig) run(plan c09Plan, tag string) c09Outcome {
 			if silent == nil {
 				silent = newPatience(30 * time.Second)
 			}
+			unanswered++
 			if (!soft && !churning) || silent.spent() {
 				setFail("client %d (listen entry %d, %s): request %s got no answer within %v and the requests before it none for 30 s: the listener no longer relays (message loop wedged or dead)", ci, entry, map[bool]string{true: "tcp", false: "udp"}[tcp], id, wait)
+				atomic.StoreInt32(&r.stop, 1)
+				return
+			}
+			// A dispatch can legitimately be lost when it hits a backend in the very
+			// instant of its removal (a window of microseconds, once every 70-110 ms
+			// in a plan with sparse churn). Four requests of one stop-and-wait client
+			// going unanswered is beyond that: messages are being lost.
+			if !(plan.Churn && plan.FastChurn) && unanswered >= 4 {
+				setFail("client %d (listen entry %d, %s): %d of its first %d requests got no answer (the last one: %s) although the backend set changes only every 70-110 ms: requests or responses are being lost", ci, entry, map[bool]string{true: "tcp", false: "udp"}[tcp], unanswered, j+1, id)
 				atomic.StoreInt32(&r.stop, 1)
 				return
 			}
